@@ -136,11 +136,15 @@ class CHECK(core.Check):
         self._graph = None
         self._driver_ready = False
         self._stale = {}
+        self._tree = None
 
     # ------------------------------------------------------------------ translator / graph
     def translate(self):
+        self._tree = self.tree_hash()
         with core.lake_lock():
             self._graph = tr.translate(self.repo)
+        if self.tree_hash() != self._tree:
+            raise core.Infra("the source tree %s changed while it was being translated; run the check again" % self.repo)
         return self._graph
 
     def graph(self):
@@ -183,12 +187,29 @@ class CHECK(core.Check):
                 self._detail[(tuple(order), m)] = d
         return r["out"] + [" ".join(state) if state else "-"]
 
+    def tree_hash(self):
+        import hashlib
+        h = hashlib.sha1()
+        for m, info in sorted(tr.discover(self.repo).items()):
+            if info["path"]:
+                with open(info["path"], "rb") as f:
+                    h.update(m.encode() + b"\0" + f.read() + b"\0")
+        return h.hexdigest()
+
+    def check_tree_unchanged(self):
+        """the graph was generated from the files as they were at the start of the run; if somebody edits or
+        commits to the tree while the real imports run, model and implementation see different sources"""
+        if self._tree is not None and self.tree_hash() != self._tree:
+            raise core.Infra("the source tree %s changed while the check was running; run it again" % self.repo)
+
     def prefetch(self, cases):
         cases = list(cases)
         todo = [c for c in cases if core.case_key(c) not in self._cache]
         with concurrent.futures.ThreadPoolExecutor(16) as pool:
             for c, out in zip(todo, pool.map(lambda c: self._run(c["order"]), todo)):
                 self._cache[core.case_key(c)] = out
+        if todo:
+            self.check_tree_unchanged()
         return cases
 
     def impl(self, case):
